@@ -8,6 +8,10 @@ Mirrored Go code (tree after the `fix:` commit recorded in notes/C14.md):
   a stored row is `(scheme, password it was computed from)`, see below);
 * `internal/auth/sasl.go`: `SASLAuth.usernameForAuth`, `SASLAuth.AuthPlain` (one provider),
   the PLAIN and LOGIN closures of `CreateSASL` (`usernameForAuth`, `saslAuthPlain`, `plain`, `login`);
+* `internal/authz/normalization.go`: `NormalizeAuto`, the table `NormalizeFuncs` (`normalizeAuto`, `normalizeFunc`,
+  `Cfg.ofConfig`) over the library primitives `NormPrims`;
+* overlapping logins: `Auth.AuthPlain` is two steps — the row is read (`table.Lookup`), later the hash
+  verification of the row that was read returns (`Ev.fetch` / `Ev.finish`, `evStep`);
 * `internal/endpoint/smtp/session.go`: `Session.Auth` (success callback), `Session.Mail` (gate) together with
   the command sequencing of go-smtp's `Conn` (`handleGreet/handleAuth/handleMail/handleRcpt/handleData/reset`)
   (`connStep`).
@@ -168,6 +172,100 @@ def run (c : Cfg) : Tbl → List Op → List Out
 /-- the credentials table after a history (chronological order) starting from the empty table. -/
 def tableAfter (c : Cfg) (h : List Op) : Tbl :=
   h.foldl (fun t op => (step c t op).1) Tbl.empty
+
+/-! ### `auth_map_normalize`: `authz.NormalizeFuncs` and `NormalizeAuto` (internal/authz/normalization.go)
+
+The library functions the table is built from are parameters (`NormPrims`); what is mirrored is WHICH of them
+each configuration value applies — in particular that `auto` on a name that is not an e-mail address and
+`precis_casefold` apply the very function `pass_table` derives its keys with (`ucm`). -/
+
+structure NormPrims where
+  ucm : Name → Option Name          -- precis.UsernameCaseMapped.CompareKey (`none` = error); also pass_table's key function
+  ucp : Name → Option Name          -- precis.UsernameCasePreserved.CompareKey
+  emailFold : Name → Option Name    -- address.PRECISFold
+  emailPres : Name → Option Name    -- address.PRECIS
+  lower : Name → Name               -- strings.ToLower
+  validEmail : Name → Bool          -- address.Valid
+
+/-- the keys of `authz.NormalizeFuncs`. -/
+inductive NormKind
+  | auto | precisCasefoldEmail | precisCasefold | precisEmail | precis | casefold | noop
+deriving DecidableEq, Repr
+
+/-- `authz.NormalizeAuto`. -/
+def normalizeAuto (P : NormPrims) (u : Name) : Option Name :=
+  if P.validEmail u then P.emailFold u else P.ucm u
+
+/-- `authz.NormalizeFuncs[kind]`. -/
+def normalizeFunc (P : NormPrims) : NormKind → Name → Option Name
+  | .auto => normalizeAuto P
+  | .precisCasefoldEmail => P.emailFold
+  | .precisCasefold => P.ucm
+  | .precisEmail => P.emailPres
+  | .precis => P.ucp
+  | .casefold => fun u => some (P.lower u)
+  | .noop => some
+
+/-- the configuration of one endpoint: `auth_map_normalize` (`none`: the field is nil, as in a hand-built `SASLAuth`),
+`auth_map`, LOGIN on/off, over the credentials table keyed by `ucm`. -/
+def Cfg.ofConfig (P : NormPrims) (an : Option NormKind) (amap : Option (Name → Option Name)) (login : Bool) : Cfg :=
+  { norm := P.ucm, anorm := an.map (normalizeFunc P), amap := amap, loginEnabled := login }
+
+/-! ### overlapping logins
+
+`pass_table.Auth.AuthPlain` reads the row of the account (`table.Lookup`) and then verifies the supplied password
+against the row it has read; nothing is shared between two calls.  A login is therefore two events: `fetch i o`
+(everything up to and including the read: the outcome is already determined, since the verification is a pure
+function of the supplied password and the row) and `finish i` (the verification returns and the verdict is
+reported).  Management operations and non-overlapping logins are atomic (`Ev.op`).  `Ev.yield` has no effect in
+the model (the harness uses it to let pending verifications run in parallel). -/
+
+inductive Ev
+  | op (o : Op)
+  | fetch (i : Nat) (o : Op)     -- `o` is a login (`plain`/`login`/`direct`)
+  | finish (i : Nat)
+  | yield
+deriving Repr
+
+inductive EvOut
+  | out (o : Out)
+  | begun          -- answer to `fetch` / `yield`: nothing is reported yet
+  | noLogin        -- `finish` of a login that is not pending
+deriving DecidableEq, Repr
+
+structure ConcState where
+  tbl : Tbl
+  pending : List (Nat × Out) := []
+
+def pendGet (i : Nat) : List (Nat × Out) → Option Out
+  | [] => none
+  | (j, r) :: rest => if j = i then some r else pendGet i rest
+
+def pendDrop (i : Nat) : List (Nat × Out) → List (Nat × Out)
+  | [] => []
+  | (j, r) :: rest => if j = i then pendDrop i rest else (j, r) :: pendDrop i rest
+
+def evStep (c : Cfg) (s : ConcState) : Ev → ConcState × EvOut
+  | .op o => ({ s with tbl := (step c s.tbl o).1 }, .out (step c s.tbl o).2)
+  | .fetch i o => ({ s with pending := (i, (step c s.tbl o).2) :: s.pending }, .begun)
+  | .finish i =>
+    match pendGet i s.pending with
+    | some r => ({ s with pending := pendDrop i s.pending }, .out r)
+    | none => (s, .noLogin)
+  | .yield => (s, .begun)
+
+def runEv (c : Cfg) : ConcState → List Ev → List EvOut
+  | _, [] => []
+  | s, e :: rest => (evStep c s e).2 :: runEv c (evStep c s e).1 rest
+
+def stateAfterEv (c : Cfg) (s : ConcState) (evs : List Ev) : ConcState :=
+  evs.foldl (fun s e => (evStep c s e).1) s
+
+/-- the atomic operations of a schedule, in order (the only events that can write the table). -/
+def mgmtOf : List Ev → List Op
+  | [] => []
+  | .op o :: rest => o :: mgmtOf rest
+  | _ :: rest => mgmtOf rest
 
 /-! ### submission gate: go-smtp `Conn` + maddy `Session` -/
 
